@@ -132,6 +132,15 @@ pub fn meta_alphabet() -> Vec<(&'static str, Map<String, Value>)> {
     m.insert("k\"\\\n\u{1F600}\u{e9}".into(), Value::String("v\u{0000}\t\u{2028}\u{7f}/".into()));
     m.insert("".into(), Value::String("".into()));
     out.push(("unicode-escapes", m));
+    // keys (not only values) with every kind of character a JSON writer must escape or may pass through: NUL and other
+    // C0 controls, DEL, C1 controls, combining marks (an NFD-spelled word), zero-width space, soft hyphen, line and
+    // paragraph separators, a lone BOM, non-BMP characters, and a 3000-byte key
+    let mut m = Map::new();
+    for k in ["\u{0}", "a\u{0}b", "\u{1}\u{1b}\u{1f}", "\u{7f}", "\u{80}\u{9f}", "cafe\u{301}", "\u{200b}", "\u{ad}", "\u{2028}\u{2029}", "\u{feff}", "\u{10ffff}\u{1f600}", "\u{8}\u{c}\r", "\\u0041", "\\", "/"] {
+        m.insert(k.to_string(), Value::String(format!("value of {}", k.escape_unicode())));
+    }
+    m.insert("k".repeat(3000), json!(1));
+    out.push(("unusual-keys", m));
     out.push(("unsorted-keys", json!({"z":1,"a":2,"m":3,"B":4,"aa":5}).as_object().unwrap().clone()));
     let mut m = Map::new();
     m.insert("big".into(), Value::String("0123456789abcdef".repeat(320)));
@@ -376,4 +385,45 @@ pub fn window_logical_entries(family: u32, n: usize) -> Vec<SEntry> {
             r
         })
         .collect()
+}
+
+/// Pairs of different contents of equal length that collide under checksums a dedup table might be tempted to use
+/// instead of a real 64-bit hash: CRC-32, Adler-32, FNV-1a 32, byte sum / xor (a permutation), equal first and last
+/// 8 bytes of a 24-byte content. Found by deterministic birthday search (about 10^5 candidates each).
+pub fn collision_pairs() -> Vec<(&'static str, Vec<u8>, Vec<u8>)> {
+    fn birthday(h: &dyn Fn(&[u8]) -> u32, len: usize, seed: u64) -> (Vec<u8>, Vec<u8>) {
+        let mut seen: std::collections::HashMap<u32, u64> = std::collections::HashMap::new();
+        let msg = |k: u64| -> Vec<u8> {
+            let mut x = k.wrapping_mul(0x9E37_79B9_7F4A_7C15) ^ seed;
+            (0..len).map(|_| { x ^= x << 13; x ^= x >> 7; x ^= x << 17; (x >> 24) as u8 }).collect()
+        };
+        for k in 1..5_000_000u64 {
+            let m = msg(k);
+            if let Some(prev) = seen.insert(h(&m), k) {
+                let a = msg(prev);
+                if a != m {
+                    return (a, m);
+                }
+            }
+        }
+        panic!("HARNESS: no collision found");
+    }
+    let crc = |b: &[u8]| { let mut c = flate2::Crc::new(); c.update(b); c.sum() };
+    let adler = |b: &[u8]| { let (mut a, mut s) = (1u32, 0u32); for x in b { a = (a + u32::from(*x)) % 65521; s = (s + a) % 65521; } (s << 16) | a };
+    let fnv = |b: &[u8]| b.iter().fold(0x811c_9dc5u32, |h, x| (h ^ u32::from(*x)).wrapping_mul(0x0100_0193));
+    let mut out = Vec::new();
+    let (a, b) = birthday(&crc, 8, 1);
+    out.push(("crc32", a, b));
+    let (a, b) = birthday(&crc, 300, 2);
+    out.push(("crc32-300-bytes", a, b));
+    let (a, b) = birthday(&adler, 12, 3);
+    out.push(("adler32", a, b));
+    let (a, b) = birthday(&fnv, 8, 4);
+    out.push(("fnv1a32", a, b));
+    out.push(("byte-sum-and-xor", b"tile-ab".to_vec(), b"tile-ba".to_vec()));
+    let mut m1 = xorshift_bytes(9, 24);
+    let m0 = m1.clone();
+    m1[11] ^= 0x55;
+    out.push(("same-ends", m0, m1));
+    out
 }
